@@ -89,6 +89,18 @@ class C12(CFGProp):
             r = ctx.collect(g.get_words, limit=len(want) + 3)
             if ctx.returns(r, "C12.words.unbounded"):
                 self._cmp(ctx, "C12.words.unbounded", r.value, want, n=-1)
+        if not case[2] and scheme == "plain":
+            # the grammar without productions also exists as CFG(): no start symbol (CFG.intersection hands it out)
+            bare = O.cfgmod().CFG
+            for name, call, want_ in (("is_empty", lambda: bare().is_empty(), True), ("is_finite", lambda: bare().is_finite(), True),
+                                      ("generating", lambda: symset(bare().get_generating_symbols()), set()),
+                                      ("nullable", lambda: symset(bare().get_nullable_symbols()), set()),
+                                      ("reachable", lambda: symset(bare().get_reachable_symbols()), set()),
+                                      ("words.bounded", lambda: list(bare().get_words(2)), []),
+                                      ("words.unbounded", lambda: list(bare().get_words()), [])):
+                r = ctx.call(call)
+                if ctx.returns(r, "C12." + name, operand="CFG()"):
+                    ctx.expect(r.value == want_, "C12." + name, operand="CFG()", got=repr(r.value)[:200], want=repr(want_))
         # the same queries in sequence on ONE object (an analysis cached by one query must not spoil the next)
         g = self._fresh(ctx, case, scheme)
         for name, meth, want in (("is_empty", "is_empty", ref["empty"]), ("generating", "get_generating_symbols", ref["gen"]),
